@@ -39,10 +39,12 @@ vars == <<pc, g, out>>
 CaseFile == IOEnv.CASE_FILE
 
 \* ------------------------------------------------------------------ value domains
-IntVals == {"0", "1", "-1", "2", "-9223372036854775808", "9223372036854775807"}
+\* 2^53 + 1 is the first integer that is not a float64: widened it equals the float 2^53; MaxInt64 widened is the float 2^63
+IntVals == {"0", "1", "-1", "2", "-9223372036854775808", "9223372036854775807", "9007199254740993"}
 UnsVals == {"0", "1", "9223372036854775808", "18446744073709551615"}
 FloatVals == {[t |-> "float", v |-> "0", e |-> 0], [t |-> "float", v |-> "1", e |-> -1], [t |-> "float", v |-> "-1", e |-> -1],
-              [t |-> "float", v |-> "1", e |-> 1], [t |-> "float", v |-> "-1", e |-> 2]}           \* 0, 0.5, -0.5, 2, -4
+              [t |-> "float", v |-> "1", e |-> 1], [t |-> "float", v |-> "-1", e |-> 2],            \* 0, 0.5, -0.5, 2, -4
+              [t |-> "float", v |-> "1", e |-> 53], [t |-> "float", v |-> "1", e |-> 63]}          \* 2^53, 2^63
 StrVals == {"a", "b", "2000-01-01", "2000-01-01T00:00:00Z"}
 ClassVals(c) == CASE c = "num" -> {[t |-> "int", v |-> x] : x \in IntVals} \cup {[t |-> "uns", v |-> x] : x \in UnsVals} \cup FloatVals
                   [] c = "bool" -> {BoolV(TRUE), BoolV(FALSE)}
@@ -239,6 +241,11 @@ IntStampsCmp == {[f |-> "int", ns |-> n, s |-> ""] : n \in {"946684800000000000"
 DurVals == {"0", "1", "3600000000000", "-3600000000000", "9223372036854775807", "-9223372036854775808"}
 DurOperands == {[f |-> df, d |-> x] : df \in {"lit", "dvar"}, x \in DurVals}
 TimeForms == {"T+D", "T-D", "D+T", "T-T", "TcmpT"}
+\* forms that are NOT time arithmetic with an exact value: a duration (or a bare integer) MINUS an instant has no
+\* instant, duration or truth value; Reduce must not invent one (it leaves the operator in place).  An integer PLUS
+\* an instant reads the integer as a duration: left alone or folded to the exact instant.
+NonForms == {"D-T", "I-T", "I+T"}
+Unfoldable == [k |-> "Unfoldable"]
 TNode(t, name) == CASE t.f = "str" -> StrL(t.s) [] t.f = "now" -> Call("now", <<>>) [] t.f = "int" -> IntL(t.ns) [] OTHER -> Ref(name)
 TBind(t, name) == CASE t.f = "svar" -> <<[n |-> name, val |-> StrV(t.s), at |-> 1]>>
                     [] t.f = "tvar" -> <<[n |-> name, val |-> [t |-> "time", v |-> t.ns], at |-> 1]>>
@@ -254,8 +261,18 @@ EmitTime(c) == /\ CSVWrite("%1$s", <<ToJson(c)>>, CaseFile)
 IsString(t) == t.f \in {"str", "svar"}
 TimeStep ==
   /\ pc = "time"
-  /\ \E form \in TimeForms :
-       CASE form \in {"T+D", "T-D"} ->
+  /\ \E form \in TimeForms \cup NonForms :
+       CASE form = "D-T" ->
+              \E t \in TimeOperands : \E d \in DurOperands :
+                EmitTime(TimeCase(form, "-", Bin("-", DNode(d, "a"), TNode(t, "b")), DBind(d, "a") \o TBind(t, "b"), Unfoldable, FALSE, FALSE))
+         [] form = "I-T" ->
+              \E t \in TimeOperands : \E i \in IntStamps :
+                EmitTime(TimeCase(form, "-", Bin("-", IntL(i.ns), TNode(t, "b")), TBind(t, "b"), Unfoldable, FALSE, FALSE))
+         [] form = "I+T" ->
+              \E t \in TimeOperands : \E i \in IntStamps :
+                EmitTime(TimeCase(form, "+", Bin("+", IntL(i.ns), TNode(t, "b")), TBind(t, "b"),
+                                  TimeL(ToDec(Add(FromDec(t.ns), FromDec(i.ns)))), FALSE, FALSE))
+         [] form \in {"T+D", "T-D"} ->
               \E t \in TimeOperands \cup IntStamps : \E d \in DurOperands :
                 LET op == IF form = "T+D" THEN "+" ELSE "-"
                     dd == FromDec(d.d)
